@@ -107,6 +107,21 @@ class GCPMapping:
             multipoint(self._wld.tolist(), self.crs),
         )
 
+    def __eq__(self, other: object) -> bool:
+        if self is other:
+            return True
+        if not isinstance(other, GCPMapping):
+            return False
+        return (
+            self._crs == other._crs
+            and np.array_equal(self._pix, other._pix)
+            and np.array_equal(self._wld, other._wld)
+        )
+
+    def __hash__(self):
+        pts = (*self._pix.ravel().tolist(), *self._wld.ravel().tolist())
+        return hash((self._crs, pts))
+
     def __dask_tokenize__(self):
         return (
             "odc.geo._gcp.GCPMapping",
@@ -168,7 +183,7 @@ class GCPGeoBox(GeoBoxBase):
         return (wx, wy)
 
     def __hash__(self):
-        return hash((*self._shape, self._affine, self._crs, id(self._mapping)))
+        return hash((*self._shape, self._affine, self._crs, self._mapping))
 
     @property
     def linear(self) -> bool:
@@ -284,7 +299,7 @@ class GCPGeoBox(GeoBoxBase):
 
         return (
             self._shape == __o.shape
-            and self._mapping is __o._mapping
+            and self._mapping == __o._mapping
             and self._affine == __o._affine
         )
 
